@@ -192,6 +192,18 @@ func (s *LinearState) Add(ctx *Context, id string, x Map) (string, error) {
 	defer s.sunlock(ctx, false)
 	s.uncacheRule(id)
 
+	if _, have := s.Facts[id]; have && s.remHook != nil {
+		// For the hooks, what we replace is removed (a scheduled
+		// rule that is overwritten must leave the cron service).
+		s.withPrivilege(ctx)
+		err := s.remHook(ctx, s, id)
+		s.withoutPrivilege(ctx)
+		if err != nil {
+			Log(ERROR, ctx, "LinearState.Add", "state", s.Name, "error", err, "when", "remHook", "id", id)
+			return "", err
+		}
+	}
+
 	pair := &Pair{[]byte(id), bs}
 	if err = s.store.Add(ctx, s.Name, pair); err != nil {
 		return id, err
@@ -282,6 +294,16 @@ func (s *LinearState) deleteDependencies(ctx *Context, id string) error {
 		if id == sr.Id {
 			Log(WARN, ctx, "LinearState.deleteDependencies", "loop", id)
 			continue
+		}
+		if s.remHook != nil {
+			// A dependent is removed like any other fact as far as
+			// the hooks are concerned.
+			s.withPrivilege(ctx)
+			err := s.remHook(ctx, s, sr.Id)
+			s.withoutPrivilege(ctx)
+			if err != nil {
+				return err
+			}
 		}
 		if _, err := s.rem(ctx, sr.Id, false); nil != err {
 			return err
@@ -491,23 +513,46 @@ func (s *LinearState) FindCachedRules(ctx *Context, event Map) (map[string]*Rule
 	return acc, nil
 }
 
+// remHooks runs the remHook for every fact (as IndexedState does
+// before it clears or deletes itself).  Assumes the write lock.
+func (s *LinearState) remHooks(ctx *Context) error {
+	if s.remHook != nil {
+		s.withPrivilege(ctx)
+		defer s.withoutPrivilege(ctx)
+		for id := range s.Facts {
+			if err := s.remHook(ctx, s, id); err != nil {
+				Log(ERROR, ctx, "LinearState.remHooks", "state", s.Name, "error", err,
+					"id", id, "when", "remHook")
+				return err
+			}
+		}
+	}
+	return nil
+}
+
 func (s *LinearState) Clear(ctx *Context) error {
 	Log(INFO, ctx, "LinearState.Clear", "name", s.Name)
 	s.slock(ctx, false)
+	defer s.sunlock(ctx, false)
+	if err := s.remHooks(ctx); err != nil {
+		return err
+	}
 	_, err := s.store.Clear(ctx, s.Name)
 	s.Facts = make(map[string]RawFact)
 	s.uncacheRules()
-	s.sunlock(ctx, false)
 	return err
 }
 
 func (s *LinearState) Delete(ctx *Context) error {
 	Log(DEBUG, ctx, "LinearState.Delete", "name", s.Name)
 	s.slock(ctx, false)
+	defer s.sunlock(ctx, false)
+	if err := s.remHooks(ctx); err != nil {
+		return err
+	}
 	err := s.store.Delete(ctx, s.Name)
 	s.Facts = make(map[string]RawFact)
 	s.uncacheRules()
-	s.sunlock(ctx, false)
 	return err
 }
 
@@ -564,6 +609,26 @@ func (s *LinearState) expire(ctx *Context, id string, fact map[string]interface{
 			Log(ERROR, ctx, "LinearState.expire", "name", s.Name,
 				"when", "Rem", "error", err)
 			return true, err
+		}
+
+		// An expired scheduled rule has to leave the cron
+		// service, too.  (The hook finds the rule gone and
+		// removes what is left of it there.)
+		if s.remHook != nil {
+			if rule, _ := ExtractRule(ctx, fact, false); rule != nil {
+				if _, scheduled := rule["schedule"]; scheduled {
+					wasPrivileged := ctx.isPrivileged("hook")
+					s.withPrivilege(ctx)
+					err := s.remHook(ctx, s, id)
+					if !wasPrivileged {
+						s.withoutPrivilege(ctx)
+					}
+					if err != nil {
+						Log(ERROR, ctx, "LinearState.expire", "name", s.Name,
+							"when", "remHook", "error", err)
+					}
+				}
+			}
 		}
 	}
 
